@@ -484,6 +484,80 @@ def r17_6(ctx):
               "only %d comparisons with `---` found in the Markdown tokenizer" % n)
 
 
+def r17_7(ctx):
+    """`is_empty` decides `nothing to write` for both renderings (the generator skips the `{..}` of an empty diff, serde skips `defaults:` when
+    TestCaseConfig::is_empty): it must look at every field - a field it forgets makes a configuration that sets only that key vanish on the way out"""
+    prog = ctx.prog
+    n = 0
+    for ty in ("TestCaseConfig", "DocumentConfig"):
+        fs = prog.find_fns("%s::is_empty" % ty)
+        if not fs:
+            continue
+        f = fs[0]
+        adt = prog.adt(ty, crate="scrut-lib")
+        fields = [x["name"] for x in adt["variants"][0]["fields"]]
+        o = Origins(f)
+        seen = set()
+        for bb, t in f.calls():
+            for a in t["args"]:
+                for nd in o.operand(a).walk():
+                    if nd.kind == "field" and nd.a in fields and nd.kids and peel(nd.kids[0]).kind == "arg":
+                        seen.add(nd.a)
+        for bi, blk in enumerate(f.blocks):
+            for st in blk["stmts"]:
+                if st["k"] == "assign":
+                    for nd in o.rvalue(st["rv"]).walk():
+                        if nd.kind == "field" and nd.a in fields and nd.kids and peel(nd.kids[0]).kind == "arg":
+                            seen.add(nd.a)
+            tt = blk["term"]
+            if tt["k"] == "switch":
+                pl = tt["discr"].get("copy") or tt["discr"].get("move")
+                if pl is not None:
+                    for nd in o.place(pl).walk():
+                        if nd.kind == "field" and nd.a in fields and nd.kids and peel(nd.kids[0]).kind == "arg":
+                            seen.add(nd.a)
+        missing = sorted(set(fields) - seen)
+        n += 1
+        ctx.check(not missing, "is-empty-all-fields:" + ty, f.where(), "%s::is_empty looks at all %d fields" % (ty, len(fields)),
+                  "%s::is_empty does not look at %s: a configuration that sets only %s counts as empty - `create` / `--convert` write the fence without `{..}` and the "
+                  "front-matter loses its `defaults:` block, the key is gone when the document is read back" % (ty, missing, (missing or ["?"])[0]))
+    if n < 1:
+        raise AnchorError("no is_empty function on TestCaseConfig / DocumentConfig")
+
+
+def r17_8(ctx):
+    """(a) the quoted form of free text covers what JSON quoting leaves verbatim and YAML does not accept in a double quoted scalar: U+007F..U+009F
+    (DEL, C1 controls incl. NEL, which YAML folds like a line break) - by an explicit range test or char::is_control; (b) `default, leave it out` for
+    total_timeout is decided on the whole duration, not on a truncated one (900.5 s is not the default of 900 s)"""
+    from .c01 import _all_consts
+    prog = ctx.prog
+    q = prog.fn("yaml_flow_scalar")
+    bodies = [q] + prog.closures_of(q)
+    consts, calls = set(), set()
+    for b in bodies:
+        for c, _ in _all_consts(b):
+            if c.ty in ("char", "u32"):
+                v = c.as_int()
+                if v is not None:
+                    consts.add(v)
+        for bi, blk in enumerate(b.blocks):
+            t = blk["term"]
+            if t["k"] == "switch":
+                for val, _tg in t.get("targets", []):
+                    consts.add(int(val))
+            if t["k"] == "call":
+                calls.add(mname(t) or "")
+    ranged = (0x7f in consts and (0x9f in consts or 0xa0 in consts)) or (0x7e in consts and (0x9f in consts or 0xa0 in consts))
+    ctx.check(ranged or "char::is_control" in calls, "quoted-escapes-c1", q.where(),
+              "the quoted form escapes U+007F..U+009F (range test %s / is_control %s)" % (ranged, "char::is_control" in calls),
+              "yaml_flow_scalar writes DEL and the C1 control characters verbatim (JSON quoting leaves them): serde_yaml answers `control characters are not allowed` "
+              "for the document just written, and NEL (U+0085) is read back as a blank")
+    t = prog.fn("is_none_or_default_timeout")
+    trunc = sorted({mname(tt) for _, tt in t.calls() if (mname(tt) or "").split("::")[-1] in ("as_secs", "as_millis", "as_micros", "as_secs_f32", "as_secs_f64", "subsec_millis", "subsec_nanos")})
+    ctx.check(not trunc, "default-timeout-whole", t.where(), "`default, leave it out` compares the whole duration",
+              "is_none_or_default_timeout decides on %s: 900.5 s counts as the default of 900 s, is left out of the front-matter and read back as 900 s" % trunc)
+
+
 def run(ctx):
     ctx.run_rule("R17.1", "to_yaml_one_liner: every free-text value (environment keys/values, wait.path) passes a quoting function before interpolation [E-FLOW taint]", r17_1, floor=4)
     ctx.run_rule("R17.2", "key tables: one-liner keys == serde field names (write and read side) of TestCaseConfig / TestCaseWait; no field unrendered [E-TABLE]", r17_2, floor=3)
@@ -491,3 +565,5 @@ def run(ctx):
     ctx.run_rule("R17.6", "front matter is delimited by lines equal to `---`, compared untrimmed (block scalars of the rendered config may contain indented `---` lines) [E-FLOW]", r17_6, floor=3)
     ctx.run_rule("R17.4", "serialize_with/deserialize_with pairing per type; humantime on both sides; same `null` literal [E-TABLE]", r17_4, floor=6)
     ctx.run_rule("R17.5", "fence config: one `{}` pair stripped by the tokenizer, one re-wrapped by parser, update and one-liner [E-TABLE]", r17_5, floor=4)
+    ctx.run_rule("R17.7", "is_empty (the `nothing to write` decision of generator and serde) looks at every field of the configuration [E-TABLE]", r17_7, floor=1)
+    ctx.run_rule("R17.8", "quoting covers DEL / C1 controls (what JSON leaves raw and YAML rejects or folds); the default-timeout omission compares the whole duration (F36, F37) [E-TABLE]", r17_8, floor=2)
